@@ -169,7 +169,7 @@ def device_id_capture(draw):
 def cases(draw):
     k = draw(st.integers(0, 9))
     if k <= 3:
-        c = draw(programs.program_cases(programs.Cfg(call_bias=15, max_funcs=4, d5_args=draw(st.booleans())), nenv=2))
+        c = draw(programs.program_cases(programs.Cfg(call_bias=15, max_funcs=4, d5_args=draw(st.booleans()), multiline_pct=draw(st.sampled_from([5, 30, 60]))), nenv=2))
         c["family"] = "general"
     elif k <= 6:
         c = draw(callgraph.callgraph_cases(nenv=2))
